@@ -175,6 +175,29 @@ theorem bounds_invariant_partial {sp : ClassSpec F} (hsp : SpecOK sp) {s : State
   let ⟨hw, hin, _⟩ := reachOk_invariants hsp h
   ⟨hw, (checkArgBounds_eq_none_iff sp s).mp hin⟩
 
+/-- `set_arg_bounds(check_args=True, …)` that does not raise, called on a model inside its bounds, leaves the
+    model inside the NEW bounds: values outside new bounds are replaced by `default_arg_from_bounds` through
+    the checking setters (`var` last) -/
+theorem set_arg_bounds_keeps_in_bounds (sp : ClassSpec F) (s : State F) (bs : List (String × RawBnd F))
+    (hok : OptNamesOK s) (hin : InBounds sp s) (h : (step sp s (.setArgBounds true bs)).err = none) :
+    InBounds sp (step sp s (.setArgBounds true bs)).st :=
+  argBoundsLoop_ok sp bs s none hok hin h
+
+/-- bounds invariant along histories of non-raising plain setters (without `rescale`) AND non-raising
+    `set_arg_bounds(check_args=True)` calls, for every class table with sane optional-argument names -/
+theorem bounds_invariant_with_bounds_ops {sp : ClassSpec F} (hsp : SpecNamesOK sp) {s : State F}
+    (h : ReachOkB sp s) : InBounds sp s :=
+  (reachOkB_inBounds hsp h).2
+
+/-- every class of the table has sane optional-argument names -/
+theorem all_specs_namesOK (name : String) (sp : ClassSpec F) (hs : specOf name = some sp) : SpecNamesOK sp := by
+  unfold specOf at hs
+  split at hs
+  all_goals first
+    | (injection hs with hs; subst hs; unfold SpecNamesOK; intro d
+       simp [plainSpec, tplHurst, tplLenLow, alphaArg])
+    | cases hs
+
 /-! ## Path independence -/
 
 /-- FULL statement (false of the current code, D8): for every shipped class, after any history of plain
@@ -366,6 +389,23 @@ theorem not_path_independent_full : ¬ path_independent_full ℚ := by
     cases h3
   · cases h
 
+/-- why `rescale` is not a plain setter for truncated-power-law classes: it has no bounds check and moves the
+    variance.  `m = TPLGaussian(dim=2, var=4, hurst=1/2); m.set_arg_bounds(var=[2, 6]); m.rescale = 1/4` is accepted
+    and leaves `m.var == 16` outside `[2, 6]` (replayed on the real classes by the search) -/
+def rescaleWitness : Bool :=
+  match (specOf "TPLGaussian" : Option (ClassSpec ℚ)) with
+  | none => false
+  | some sp =>
+    match construct sp { expCfg with var := 4, opt := [("hurst", 1 / 2)] } with
+    | .ok (s0, _) =>
+      let r1 := step sp s0 (.setArgBounds true [("var", ⟨some 2, some 6, ""⟩)])
+      let r2 := step sp r1.st (.setRescale (some (1 / 4)))
+      decide (r1.err = none) && decide (var sp r1.st = 4) && decide (r2.err = none) && decide (var sp r2.st = 16) &&
+      decide (checkArgBounds sp r2.st = some (.bound "var" 3))
+    | .error _ => false
+
+theorem rescaleWitness_true : rescaleWitness = true := by decide +kernel
+
 /-- a concrete non-trivial history satisfying the hypotheses of the history theorems (and on which their
     conclusion is re-checked by evaluation): `m = Exponential(dim=2); m.dim = 3; m.len_scale = [2, 4];
     m.anis = 1/2; m.nugget = 1/2; m.angles = [1, 1/4]` -/
@@ -383,12 +423,24 @@ def historyWitness : Bool :=
 
 theorem historyWitness_true : historyWitness = true := by decide +kernel
 
-example : ∃ s : State ℚ, ReachOk expSpec s := by
+theorem exists_reachOk : ∃ s : State ℚ, ReachOk expSpec s ∧ ReachOkB expSpec s := by
   have h := historyWitness_true
   unfold historyWitness at h
   split at h
-  · rename_i s w heq; exact ⟨s, ReachOk.init heq⟩
+  · rename_i s w heq; exact ⟨s, ReachOk.init heq, ReachOkB.init heq⟩
   · cases h
+
+/-- the hypotheses of `path_independent_partial`, `bounds_invariant_partial`, `set_arg_bounds_keeps_in_bounds`,
+    `bounds_invariant_with_bounds_ops` are satisfied by a concrete model state on `ℚ` -/
+example : ∃ s : State ℚ, WF s ∧ DefaultBounds expSpec s ∧ InBounds expSpec s ∧ OptNamesOK s ∧
+    varFactor expSpec s ≠ 0 ∧ (expSpec.fixDim = none ∨ expSpec.fixDim = some s.dim) := by
+  obtain ⟨s, hs, hsB⟩ := exists_reachOk
+  have hspec : specOf "Exponential" = some expSpec := by simp [expSpec]
+  have hok := shipped_specOK (F := ℚ) "Exponential" (by simp) expSpec hspec
+  obtain ⟨h1, h2, h3⟩ := reachOk_invariants (F := ℚ) hok.1 hs
+  have h4 := reachOkB_inBounds (F := ℚ) (all_specs_namesOK "Exponential" expSpec hspec) hsB
+  refine ⟨s, h1, h3, (checkArgBounds_eq_none_iff expSpec s).mp h2, h4.1, ?_, Or.inl hok.2.2⟩
+  rw [varFactor_nontpl (F := ℚ) hok.2.1]; exact one_ne_zero
 
 /-! ## The truncated-power-law variance factor on `ℝ` for `hurst = 1/2` -/
 
